@@ -79,9 +79,17 @@ func generate(cfg *hx.Config) []hx.Case {
 		for _, e := range exs {
 			hasConnect = hasConnect || e.Meth == 'C'
 		}
-		if !hasConnect && n%3 == 0 && !strings.HasPrefix(mode, "s") {
-			mode = "m" + mode
+		if !hasConnect && (mode == "seq" || mode == "pipe") {
+			switch n % 6 {
+			case 0, 3: // through the MITM-enabled proxy, outside any tunnel
+				mode = "m" + mode
+			case 1: // inside a decrypted CONNECT tunnel
+				mode = "t" + mode
+			case 4: // inside a CONNECT tunnel, plain HTTP
+				mode = "h" + mode
+			}
 		}
+		cfg.Count("carrier=" + map[byte]string{'s': "client-connection", 'p': "client-connection", 'm': "client-connection(mitm proxy)", 't': "tls-tunnel", 'h': "plain-tunnel"}[mode[0]])
 		cases = append(cases, caseOf(fmt.Sprintf("%s%d", kind, n), mode, exs))
 		cfg.Count("kind=" + kind)
 		cfg.Count("mode=" + mode)
@@ -200,6 +208,53 @@ func generate(cfg *hx.Config) []hx.Case {
 		add("dial", "seq", &exch{ID: id(r), Meth: 'C', Outcome: "ok", Status: 200, Framing: "c", BodyLen: 9})
 		add("dial", "seq", okEx(id(r), 'G', "c", 3, nil), &exch{ID: id(r), Meth: 'C', Outcome: "tmo", Status: 200, Framing: "c", BodyLen: 4},
 			&exch{ID: id(r), Meth: 'C', Outcome: "ok", Status: 200, Framing: "k", BodyLen: 9, Sizes: []int{4}}, okEx(id(r), 'G', "c", 3, nil))
+	}
+	// every failure kind x position of the failing exchange x carrier: the first
+	// request inside a MITM'd tunnel is served by a nested call from
+	// handleConnectRequest (one for TLS, one for plain HTTP), later ones by the
+	// loop; always followed by a good exchange so that a desync shows
+	{
+		r := rng.Fork()
+		base := &exch{ID: 10, Meth: 'G', Status: 200, Framing: "c", BodyLen: 12}
+		kbase := &exch{ID: 10, Meth: 'G', Status: 200, Framing: "k", BodyLen: 12, Sizes: []int{5}}
+		hl, khl := len(base.head()), len(kbase.head())
+		type fail struct {
+			e *exch
+			k int
+		}
+		mk := func(b *exch, oc string, k int) *exch {
+			c := *b
+			c.Outcome, c.K = oc, k
+			return &c
+		}
+		fails := []*exch{
+			mk(base, "cut", hl+5), mk(base, "cut", hl), mk(base, "cut", fullLen(base)-1), // short Content-Length body
+			mk(kbase, "cut", khl+5), mk(kbase, "cut", khl+9), mk(kbase, "cut", fullLen(kbase)-2), // broken chunking
+			mk(base, "cut", hl/2), mk(base, "cut", 0), // close inside / before the head
+			mk(base, "ref", 0), mk(base, "tmo", 0), mk(base, "gar", 1), mk(base, "gar", 12),
+		}
+		for ci, car := range []string{"", "m", "t", "h", "t", "h"} {
+			for pos := 0; pos < 3; pos++ {
+				for fi, f := range fails {
+					var exs []*exch
+					for j := 0; j < pos; j++ {
+						exs = append(exs, okEx(40+j, "GP"[j%2], []string{"c", "k"}[(j+fi)%2], 4+j, []int{3}))
+					}
+					fe := *f
+					fe.Meth = "GPG"[(fi+pos)%3]
+					exs = append(exs, &fe, okEx(60, 'G', "c", 5, nil), okEx(61, 'P', "k", 6, []int{4}))
+					mode := car + "seq"
+					if ci >= 4 || (ci < 2 && (fi+pos)%4 == 3) { // both tunnels: once sequential, once pipelined
+						mode = car + "pipe"
+					}
+					n++
+					cases = append(cases, caseOf(fmt.Sprintf("pos%d", n), mode, exs))
+					cfg.Count("kind=position-x-carrier")
+					cfg.Count("carrier=" + map[string]string{"": "client-connection", "m": "client-connection(mitm proxy)", "t": "tls-tunnel", "h": "plain-tunnel"}[car])
+				}
+			}
+		}
+		_ = r
 	}
 	// slow failures on the proxy with the short timeout: the connection lives
 	// longer than SetTimeout although every exchange stays far below it
@@ -486,6 +541,18 @@ func corpus() []hx.Case {
 	add("connect-ok-tunnel", "seq", okEx(14, 'G', "c", 3, nil), &exch{ID: 15, Meth: 'C', Outcome: "ok", Status: 200, Framing: "c", BodyLen: 9})
 	for g := 10; g < len(garbage); g++ {
 		add(fmt.Sprintf("garbage-echoed-into-warning-%d", g), "seq", &exch{ID: 16, Meth: 'G', Outcome: "gar", K: g, Status: 200, Framing: "c", BodyLen: 4}, okEx(17, 'G', "c", 5, nil))
+	}
+	for _, car := range []string{"t", "h"} {
+		for pos := 0; pos < 2; pos++ {
+			var exs []*exch
+			if pos == 1 {
+				exs = append(exs, okEx(30, 'G', "c", 3, nil))
+			}
+			c := *d2
+			k := *d2k
+			add(fmt.Sprintf("tunnel-%s-request-%d-content-length-cut-mid-body", car, pos+1), car+"seq", append(append([]*exch{}, exs...), &c, okEx(2, 'G', "c", 5, nil))...)
+			add(fmt.Sprintf("tunnel-%s-request-%d-chunked-cut-mid-body", car, pos+1), car+"seq", append(append([]*exch{}, exs...), &k, okEx(4, 'G', "c", 5, nil))...)
+		}
 	}
 	var slow []*exch
 	for i := 0; i < 5; i++ {
